@@ -26,7 +26,7 @@ HOSTILE_FOREIGN = ["%s", "100%d", "%(name)s", "percent%", "{0}", "{name}", "", "
 _USED = {}
 
 
-def call_index(unit, element, w, c, rules, same_id=None, foreign_name=None, used=False, below=False):
+def call_index(unit, element, w, c, rules, same_id=None, foreign_name=None, used=False, below=False, moved=False):
     from metapype.eml import rule
     from metapype.model.node import Node
     from metapype.eml.exceptions import ChildNotAllowedError
@@ -56,7 +56,16 @@ def call_index(unit, element, w, c, rules, same_id=None, foreign_name=None, used
                 pass
         before = list(earlier)
     try:
-        got = r.child_insert_index(p, Node((foreign_name if foreign_name is not None else c01.FOREIGN_NAME) if c == c01.FOREIGN else c))
+        cand = Node((foreign_name if foreign_name is not None else c01.FOREIGN_NAME) if c == c01.FOREIGN else c)
+        if moved:
+            # the candidate comes from elsewhere: it was a child of another (larger) parent of the same kind and was taken out with
+            # remove_child - its parent pointer still names the old parent.  The position asked for is one in `p`
+            other = Node(p.name)
+            for nm in list(w) + list(w) + [x for x in (c,) if x != c01.FOREIGN] * 3:
+                other.add_child(Node(c01.FOREIGN_NAME if nm in (c01.FOREIGN, c01.ANY) else nm))
+            other.add_child(cand, index=0)
+            other.remove_child(cand)
+        got = r.child_insert_index(p, cand)
         res = ("idx", got)
     except ChildNotAllowedError:
         res = ("refused", -1)
@@ -87,6 +96,8 @@ def w_insert(idx):
                       for h in ("{u}" + a, "x}" + a, "x:" + a, a + " ", a.capitalize(), a + "s") if h not in names_sigma]
         if i % 3 == 2 and len(w) >= 1:
             cases += [(c, acc, "below") for c, acc in accs.items()]
+        if i % 3 == 0:
+            cases += [(c, acc, "moved") for c, acc in list(accs.items()) + [(c01.FOREIGN, [])]]
         if i % 3 == 1 and unit != "@metadata":
             cases += [(c, acc, "used-rule:" + ("collecting-last" if i % 2 else "fail-fast-last")) for c, acc in list(accs.items()) + [(c01.FOREIGN, [])]]
         for c, acc, same_id in cases:
@@ -97,11 +108,12 @@ def w_insert(idx):
             if same_id and same_id.startswith("used-rule:"):
                 used, same_id = same_id[10:], None
             below = same_id == "below"
-            if below:
+            moved = same_id == "moved"
+            if below or moved:
                 same_id = None
-            kind, got = call_index(unit, el, w, c, rules, same_id, fname, used=used, below=below)
+            kind, got = call_index(unit, el, w, c, rules, same_id, fname, used=used, below=below, moved=moved)
             n += 1
-            replay = {"kind": "insert", "unit": unit, "element": el, "children": w, "candidate": c, "acceptable": acc, "children_constructed_with_id": same_id, "rule_object_used_before": used, "children_carry_subtrees_with_the_candidate_name": below}
+            replay = {"kind": "insert", "unit": unit, "element": el, "children": w, "candidate": c, "acceptable": acc, "children_constructed_with_id": same_id, "rule_object_used_before": used, "children_carry_subtrees_with_the_candidate_name": below, "candidate_detached_from_another_parent": moved}
             unit_ = unit
             unit = unit + (":siblings-share-an-id" if same_id else "")
             if kind == "raised":
